@@ -15,6 +15,7 @@ import sqlite3
 import traceback
 
 from lv import core, model, gen, drive, ref, canon
+from lv.model import mk_rule
 from lv.props import common
 
 ID = 'C18'
@@ -80,8 +81,15 @@ C_KINDS = ('join', 'join', 'agg', 'agg', 'neg', 'combine', 'combine', 'self2', '
            'gen', 'fcall')
 KEY_MODES = ('all', 'all', 'all', 'all', 'prefix', 'prefix', 'prefix', 'none', 'none',
              'none')
-STYLES = ('plain', 'plain', 'asc', 'desc', 'desc', 'DESC', 'sepDESC')
-DESC_STYLES = ('desc', 'DESC', 'sepDESC')
+STYLES = ('plain', 'plain', 'plain', 'asc', 'asc', 'desc', 'desc', 'desc', 'DESC', 'DESC',
+          'sepDESC', 'sepDESC', 'sepdesc', 'sepasc', 'sepASC')
+# wide ordered predicates (5-10 columns): mostly separate direction tokens, so that the
+# @OrderBy / order_by(...) argument list regularly has 10 and more items
+WIDE_STYLES = ('plain', 'sepDESC', 'sepDESC', 'sepdesc', 'sepdesc', 'sepasc', 'sepasc',
+               'sepASC', 'desc', 'asc')
+SEP_STYLES = {'sepDESC': 'DESC', 'sepdesc': 'desc', 'sepasc': 'asc', 'sepASC': 'ASC'}
+DESC_STYLES = ('desc', 'DESC', 'sepDESC', 'sepdesc')
+WIDE_PCT = 25
 
 
 # ------------------------------------------------------------------ spec -> program
@@ -96,9 +104,9 @@ def key_strings(keys):
         c = colname(f)
         if style == 'plain':
             out.append('"%s"' % c)
-        elif style == 'sepDESC':
+        elif style in SEP_STYLES:
             out.append('"%s"' % c)
-            out.append('"DESC"')
+            out.append('"%s"' % SEP_STYLES[style])
         else:
             out.append('"%s %s"' % (c, style))
     return out
@@ -256,6 +264,43 @@ class OGen(gen.Gen):
         finally:
             self._cons = None
 
+    def wide(self, name, as_rule):
+        """A 5-10 column predicate whose leading columns tie a lot (small value
+        domains): facts `W0`, optionally read by one rule `name` that permutes the
+        columns.  Returns the name of the predicate to order."""
+        rng = self.rng
+        ncol = rng.choice((5, 6, 6, 7, 7, 8, 10))
+        types = [rng.choice(('N', 'N', 'N', 'S')) for _ in range(ncol)]
+
+        def layout():
+            npos = rng.randint(0, ncol)
+            return [i if i < npos else 'f%d' % i for i in range(ncol)]
+        wname = 'W0'
+        for k in [k for k in self.colvals if k[0] == wname]:
+            del self.colvals[k]
+        wf = layout()
+        self.sig[wname] = {'fields': tuple(zip(wf, types)), 'value': None}
+        doms = [(rng.sample((0, 1, 2, 3, 5), rng.randint(2, 3)) if t == 'N' else
+                 rng.sample(('a', 'b', 'c', 'ab'), 2)) for t in types]
+        for _ in range(rng.randint(5, 8)):
+            row = [('lit', rng.choice(d)) for d in doms]
+            for f, v in zip(wf, row):
+                self.colvals.setdefault((wname, f), []).append(v)
+            self.rules.append(mk_rule(wname, tuple(zip(wf, row))))
+        self.concrete.append(wname)
+        if not as_rule:
+            return wname
+        perm = rng.sample(range(ncol), ncol)
+        pf = layout()
+        vs = ['v%d' % i for i in range(ncol)]
+        body = (('call', wname, tuple((wf[i], ('var', vs[i])) for i in range(ncol)), ()),)
+        head = tuple((pf[j], ('var', vs[i])) for j, i in enumerate(perm))
+        self.sig[name] = {'fields': tuple((pf[j], types[i]) for j, i in enumerate(perm)),
+                          'value': None}
+        self.rules.append(mk_rule(name, head, body))
+        self.concrete.append(name)
+        return name
+
     def biased(self, name, P):
         """Ordinary generated predicate whose calls prefer P."""
         self.focused([P, P, P] + [n for n in self.concrete if n != P],
@@ -305,6 +350,9 @@ def make_ordered(g, name, ospec, col, reads=None, typecheck=False):
         shape = rng.choice(('single', 'single', 'single', 'const', 'const', 'edb', 'multi'))
     if reads is not None:
         shape = rng.choice(('nested_join', 'nested_join', 'nested_agg'))
+    elif mode != 'none' and 'W0' not in g.sig and pct(rng, WIDE_PCT):
+        shape = rng.choice(('wide_facts', 'wide_rule', 'wide_rule'))
+        mode = rng.choice(('all', 'all', 'all', 'all', 'all', 'all', 'all', 'prefix'))
     chosen = None
     for attempt in range(6):
         n_rules = len(g.rules)
@@ -316,6 +364,8 @@ def make_ordered(g, name, ospec, col, reads=None, typecheck=False):
                 continue
             big = [n for n in cands if sum(1 for r in g.rules if r['pred'] == n) >= 3]
             cand = rng.choice(big or cands)
+        elif shape.startswith('wide'):
+            cand = g.wide(name, shape == 'wide_rule')
         else:
             o = dict(p_two_rules=0.0, p_distinct=0.0, p_or=0.0)
             if shape == 'multi':
@@ -377,12 +427,15 @@ def make_ordered(g, name, ospec, col, reads=None, typecheck=False):
         keys_idx = []          # limit only
     else:
         col.label('keys:all_columns')
-    keys = [[fields[i], rng.choice(STYLES)] for i in keys_idx]
-    if typecheck and EXCLUDE_D12:
+    styles = WIDE_STYLES if shape.startswith('wide') else STYLES
+    keys = [[fields[i], rng.choice(styles)] for i in keys_idx]
+    if EXCLUDE_D12:
+        # (legacy, off by default) separate direction tokens only in the form both
+        # functions understood before fix 7aa8b1c: none under type checking, "DESC" else
         for kk in keys:
-            if kk[1] == 'sepDESC':
-                kk[1] = 'DESC'
-                col.exclude('D12_separate_DESC_token_under_type_checking')
+            if kk[1] in SEP_STYLES and (typecheck or kk[1] != 'sepDESC'):
+                kk[1] = 'desc' if kk[1] in DESC_STYLES else 'asc'
+                col.exclude('D12_separate_direction_token')
     # ---- K
     r = rng.randint(0, 99) / 100.0
     if n >= 2 and r < 0.68:
@@ -625,8 +678,9 @@ def check_pred(prog, pred, text=None, rules=None):
         if bucket.startswith('rejected_valid:') and 'which it lacks' in detail:
             # CheckOrderByClause: the one diagnostic of type checking that is about C18
             bucket = 'rejected_valid:order_by_column_check'
-            if any(style == 'sepDESC' for s in prog['ospec'].values()
-                   for f, style in s['keys']) and 'DESC' in detail.split('which it lacks')[0]:
+            if any(style in SEP_STYLES and SEP_STYLES[style] in
+                   detail.split('which it lacks')[0] for s in prog['ospec'].values()
+                   for f, style in s['keys']):
                 bucket += ':quirk:' + D12_QUIRK
         elif prog.get('typecheck') and not bucket.startswith('sqlite_error:'):
             # anything else the type checker says about a generated program is C05's
@@ -705,6 +759,9 @@ def case_labels(prog, pred, info):
         labels.append('K:' + k_class(s.get('limit'), n))
         labels.append('shape:' + prog.get('shapes', {}).get(q, '?'))
         labels.append('nkeys:%d' % len(s['keys']))
+        ni = len(key_strings(s['keys']))
+        labels.append('orderby_items:' + ('0' if ni == 0 else '1-4' if ni < 5 else
+                                          '5-9' if ni < 10 else '10+'))
         for f, style in s['keys']:
             labels.append('style:' + style)
         if s['keys']:
@@ -828,6 +885,7 @@ def evidence_extra(col):
             lab.get('consumer_of_injectible_shaped', 0),
         'consumers_where_only_the_limit_blocks_injection':
             lab.get('consumer_of_limit_only_truncated_injectible_shaped', 0),
+        'targets_with_10_or_more_orderby_items': lab.get('orderby_items:10+', 0),
         'type_checked_targets': lab.get('type_checking:on', 0)}}
 
 
